@@ -99,6 +99,8 @@ def run(ctx):
     # a bare term that ends in an identifier-only stamp/truth keyword (Han) must reach the term segmenter whole (D11)
     import suffix
     suffix.rule_S_SUFFIX(ctx, T)
+    # "both succeed": the start of a formatter output must not be readable as a budget (Han `预算` is rejected by both pipelines)
+    tables.rule_T_BUDGET_IDENT(ctx, T, models=("enum", "lex"))
     # numeric items: both pipelines must turn n numbers into the same constructor with the numbers in order -- the enum parser through
     # `match num` (A-COUNT), the fold through the try_from_floats ladders (V-CTOR) (seed c03-c: new_double(p, q) in the enum parser only)
     import c01, c13
